@@ -2,7 +2,7 @@
    Runtime half (the process survives, a witness connection on a real socket keeps getting exact replies, the example
    store under boundary arguments) is observed by the harness; see DESIGN 4/C07. *)
 From Coq Require Import String.
-From GR Require Import Base Resp RespFacts Handler Exec Conn Multi ConnFacts LoopFacts MultiFacts Redis Store StoreSafe.
+From GR Require Import Base Resp RespFacts Handler Exec Conn Multi ConnFacts LoopFacts MultiFacts Redis Store StoreSafe ArraySafe.
 
 Section C07.
   Variable hstate : Type.
@@ -83,3 +83,14 @@ Print Assumptions C07_example_store_indexing_safe.
 (* the checked functions do tell a panic: limitZSetMembers as it was before 4d3cec5 (`mems[offset:offset+count]`) *)
 Example C07_ex_store : c_limit_as_found 5 2 [B"a"; B"b"; B"c"] = None /\ c_limit 5 2 [B"a"; B"b"; B"c"] = Some [].
 Proof. exact c_limit_as_found_panics. Qed.
+
+(* (6) the framework's own slice arithmetic behind ... LIMIT offset count and the REV commands (proto.Array.LimitBy / ReverseBy),
+   written with Go's partial slice primitive and wrapping int64 arithmetic: for every array shorter than 2^62 and ALL int64 step,
+   offset and count — a client chooses offset and count freely — LimitBy does not panic, does not wrap, and returns exactly what the
+   executable model (Exec.limit_by, used by Conn.step) returns; ReverseBy does not panic and does not wrap *)
+Theorem C07_array_helpers_safe :
+  (forall A (msgs : list A) step offset count, short msgs -> i64 step -> i64 offset -> i64 count ->
+     c_limit_by msgs step offset count = Some (limit_by (Z.to_nat (if (step <? 1)%Z then 1%Z else step)) offset count msgs)) /\
+  (forall A (msgs : list A) step, short msgs -> i64 step -> c_reverse_by msgs step <> None).
+Proof. split; [intros A; apply c_limit_by_ok|intros A; apply c_reverse_by_total]. Qed.
+Print Assumptions C07_array_helpers_safe.
